@@ -1148,49 +1148,35 @@ Proof.
   destruct (G actual st1 Hi1 (Hm1 n Hn)) as [H3 H4]. split; auto.
 Qed.
 
-Lemma vshort_eqb_eq : forall a b, vshort_eqb a b = true <-> a = b.
+(* after the repair every deleted volume of an incremental heartbeat is handled exactly:
+   skipped when it is not registered, otherwise removed with the registered flags *)
+Theorem delta_delete_volume_inv : forall st r n v, Inv st r -> In n (keys st) -> length n = 3%nat ->
+  Inv (delta_delete_volume st n v) r /\ (forall k, In k (keys st) -> In k (keys (delta_delete_volume st n v))).
 Proof.
-  intros [a1 a2] [b1 b2]. unfold vshort_eqb. simpl. rewrite andb_true_iff, N.eqb_eq, String.eqb_eq.
-  split; [intros [? ?]; subst; reflexivity|intro H; inversion H; auto].
-Qed.
-
-Lemma nodup_swap : forall l : list vshort, NoDup l -> NoDup (map (fun x : vshort => (snd x, fst x)) l).
-Proof.
-  intros l H. induction H as [|m l Hm Hnd IH]; simpl; constructor; auto.
-  intro Hin. apply Hm. apply in_map_iff in Hin. destruct Hin as [[a b] [E Hx]]. simpl in E.
-  destruct m as [c d]. simpl in E. inversion E; subst. exact Hx.
+  intros st r n v Hi Hn Hl. unfold delta_delete_volume.
+  destruct (get_or_create_disk_inv st r n (v_disk v) Hi Hn Hl) as [Hi1 [Hq [Hmono _]]].
+  rewrite (proj1 (info_goc_payload st n (v_disk v) (n ++ [v_disk v]))).
+  destruct (find_vol (v_id v) (i_vols (info st (n ++ [v_disk v])))) as [oldV|] eqn:F; [|auto].
+  apply (delete_volume_exact st r n
+           {| v_id := v_id v; v_disk := v_disk v; v_remote := v_remote oldV; v_ro := v_ro oldV |} oldV Hi Hn Hl F).
+  reflexivity.
 Qed.
 
 Theorem delta_update_volumes_inv : forall st r n news dels, Inv st r -> In n (keys st) -> length n = 3%nat ->
-  trig_stale_delete st n dels = false -> trig_remote_delete st n dels = false ->
-  Inv (delta_update_volumes st n (map of_short news) (map of_short dels)) r /\
-  (forall k, In k (keys st) -> In k (keys (delta_update_volumes st n (map of_short news) (map of_short dels)))).
+  Inv (delta_update_volumes st n news dels) r /\
+  (forall k, In k (keys st) -> In k (keys (delta_update_volumes st n news dels))).
 Proof.
-  intros st r n news dels Hi Hn Hl T0 T3. unfold delta_update_volumes.
-  unfold trig_stale_delete in T0. apply orb_false_iff in T0. destruct T0 as [T0a T0b].
-  apply negb_false_iff in T0a. apply (nodupb_sound _ vshort_eqb vshort_eqb_eq) in T0a.
-  destruct (delete_loop (map of_short dels) st r n Hi Hn Hl) as [Hi1 Hm1].
-  { rewrite map_map. unfold vkey, of_short. simpl. apply nodup_swap. exact T0a. }
-  { intros v Hv. apply in_map_iff in Hv. destruct Hv as [m [E Hm]]. subst v. unfold of_short. simpl.
-    destruct (registered_at st n m) as [v0|] eqn:R.
-    - exists v0. split; [exact R|].
-      unfold trig_remote_delete in T3.
-      destruct (v_remote v0) eqn:Rv; auto.
-      assert (X : existsb (fun m => match registered_at st n m with Some v => v_remote v | None => false end) dels = true).
-      { apply existsb_exists. exists m. split; auto. rewrite R. exact Rv. }
-      congruence.
-    - exfalso.
-      assert (X : existsb (fun m => match registered_at st n m with None => true | Some _ => false end) dels = true).
-      { apply existsb_exists. exists m. split; auto. rewrite R. reflexivity. }
-      congruence. }
-  set (st1 := fold_left (fun s v => delete_volume s n v) (map of_short dels) st) in *.
-  assert (G : forall l s, Inv s r -> In n (keys s) ->
-            Inv (fold_left (fun s v => add_or_update_volume s n v) l s) r /\
-            (forall k, In k (keys s) -> In k (keys (fold_left (fun s v => add_or_update_volume s n v) l s)))).
-  { induction l as [|v l IH]; intros s His Hns; simpl; [auto|].
-    destruct (add_or_update_volume_inv s r n v His Hns Hl) as [H1 H2].
-    destruct (IH _ H1 (H2 n Hns)) as [H3 H4]. split; auto. }
-  destruct (G (map of_short news) st1 Hi1 (Hm1 n Hn)) as [H3 H4]. split; auto.
+  intros st r n news dels Hi Hn Hl. unfold delta_update_volumes.
+  assert (G : forall (f : state -> path -> vinfo -> state),
+            (forall s v, Inv s r -> In n (keys s) -> Inv (f s n v) r /\ (forall k, In k (keys s) -> In k (keys (f s n v)))) ->
+            forall l s, Inv s r -> In n (keys s) ->
+            Inv (fold_left (fun s v => f s n v) l s) r /\
+            (forall k, In k (keys s) -> In k (keys (fold_left (fun s v => f s n v) l s)))).
+  { intros f Hf. induction l as [|v l IH]; intros s His Hns; simpl; [auto|].
+    destruct (Hf s v His Hns) as [H1 H2]. destruct (IH _ H1 (H2 n Hns)) as [H3 H4]. split; auto. }
+  destruct (G delta_delete_volume (fun s v H1 H2 => delta_delete_volume_inv s r n v H1 H2 Hl) dels st Hi Hn) as [H1 H2].
+  destruct (G add_or_update_volume (fun s v H3 H4 => add_or_update_volume_inv s r n v H3 H4 Hl) news _ H1 (H2 n Hn)) as [H3 H4].
+  split; auto.
 Qed.
 
 (* ================================================================== *)
@@ -1321,6 +1307,26 @@ Proof.
   split; auto.
 Qed.
 
+Lemma info_goc : forall st n x k, info (get_or_create_disk st n x) k = info st k.
+Proof.
+  intros st n x k. unfold get_or_create_disk. destruct (present st (n ++ [x])) eqn:P; [reflexivity|].
+  rewrite info_app_new. destruct (present st k) eqn:Pk; [reflexivity|].
+  apply present_false in Pk. rewrite (info_absent st k Pk). destruct (path_eqb (n ++ [x]) k); reflexivity.
+Qed.
+
+Lemma Struct_goc : forall st n x, Struct st -> In n (keys st) -> Struct (get_or_create_disk st n x).
+Proof.
+  intros st n x Hs Hn. unfold get_or_create_disk. destruct (present st (n ++ [x])) eqn:P; [exact Hs|].
+  apply present_false in P. apply Struct_add; auto. apply payload_ok_empty.
+Qed.
+
+Lemma keys_goc : forall st n x k, In k (keys (get_or_create_disk st n x)) <-> In k (keys st) \/ k = n ++ [x].
+Proof.
+  intros st n x k. unfold get_or_create_disk. destruct (present st (n ++ [x])) eqn:P.
+  - apply present_in in P. split; [auto|intros [H|H]; subst; auto].
+  - rewrite keys_app, in_app_iff. simpl. intuition.
+Qed.
+
 (* ================================================================== *)
 (* 10. AdjustMaxVolumeCounts                                           *)
 (* ================================================================== *)
@@ -1345,8 +1351,20 @@ Proof.
   - symmetry. apply path_eqb_neq. intro Heq. subst m. rewrite is_prefix_app in E. discriminate.
 Qed.
 
+Lemma Core_goc : forall st n x, Core st -> In n (keys st) -> Core (get_or_create_disk st n x).
+Proof.
+  intros st n x [Hs Cv Cr Ce Cm] Hn. unfold get_or_create_disk.
+  destruct (present st (n ++ [x])) eqn:P; [constructor; assumption|].
+  apply present_false in P. constructor.
+  - apply Struct_add; auto. apply payload_ok_empty.
+  - apply Cons_add_empty; auto; intros; apply E_empty.
+  - apply Cons_add_empty; auto; intros; apply E_empty.
+  - apply Cons_add_empty; auto; intros; apply E_empty.
+  - apply Cons_add_empty; auto; intros; apply E_empty.
+Qed.
+
 (* one max-count delta applied at the disk of its type *)
-Lemma max_adjust_step : forall st r n dt d, Inv st r -> In n (keys st) -> length n = 3%nat ->
+Lemma max_adjust_step : forall st n dt d, Core st -> In n (keys st) -> length n = 3%nat ->
   let st' := up_adjust (get_or_create_disk st n dt) (n ++ [dt]) [(dt, mkCounts 0 0 0 0 d)] in
   Core st' /\
   (forall k, In k (keys st) -> In k (keys st')) /\
@@ -1355,15 +1373,20 @@ Lemma max_adjust_step : forall st r n dt d, Inv st r -> In n (keys st) -> length
      maxVolumeCount (U st' m t) =
      maxVolumeCount (U st m t) + (if path_eqb m n && String.eqb dt t then d else 0)).
 Proof.
-  intros st r n dt d Hi Hn Hl st'.
-  destruct (get_or_create_disk_inv st r n dt Hi Hn Hl) as [Hi1 [Hq [Hmono Hinfo]]].
+  intros st n dt d Hi Hn Hl st'.
+  pose proof (Core_goc st n dt Hi Hn) as Hi1.
+  pose proof (goc_present st n dt) as Hq.
+  assert (Hmono : forall k, In k (keys st) -> In k (keys (get_or_create_disk st n dt)))
+    by (intros k Hk; apply keys_goc; left; exact Hk).
+  assert (Hinfo : forall k, In k (keys st) -> info (get_or_create_disk st n dt) k = info st k)
+    by (intros; apply info_goc).
   set (st1 := get_or_create_disk st n dt) in *.
   set (q := n ++ [dt]) in *.
   set (dl := [(dt, mkCounts 0 0 0 0 d)]).
   assert (Hlq : length q = 4%nat) by (unfold q; rewrite app_length; simpl; lia).
   assert (Hz : forall t (f : counts -> Z), f zero_counts = 0 -> f (mkCounts 0 0 0 0 d) = 0 -> f (uget dl t) = 0).
   { intros t f H0 H1. unfold dl. rewrite uget_one by assumption. destruct (String.eqb dt t); auto. }
-  destruct Hi1 as [Hs1 Cv Cr Ce Cm Hr1].
+  destruct Hi1 as [Hs1 Cv Cr Ce Cm].
   split; [|split; [|split]].
   - unfold st'. fold st1. fold q. fold dl. constructor.
     + apply Struct_up_adjust. exact Hs1.
@@ -1381,8 +1404,7 @@ Proof.
       destruct (is_prefix p q); [rewrite add_max|]; rewrite (Cm p Hp t); lia.
   - intros k Hk. unfold st'. rewrite keys_up_adjust. apply Hmono. exact Hk.
   - intros p Hp Hlp. unfold st' in Hp. rewrite keys_up_adjust in Hp. fold st1 in Hp.
-    unfold st1, get_or_create_disk in Hp. destruct (present st (n ++ [dt])); auto.
-    rewrite keys_app in Hp. apply in_app_or in Hp. destruct Hp as [Hp|[Hp|[]]]; auto.
+    unfold st1 in Hp. apply keys_goc in Hp. destruct Hp as [Hp|Hp]; auto.
     subst p. fold q in Hlp. lia.
   - intros m t Hm Hlm. unfold st'. fold st1. fold q. fold dl.
     rewrite U_up_adjust by (apply Hmono; exact Hm).
@@ -1394,32 +1416,20 @@ Qed.
 
 Definition dtf (km : string * Z) : string := to_dt (fst km).
 
-Definition adjust_step (n : path) (sd : state * usages) (km : string * Z) : state * usages :=
-  let '(s, delta) := sd in
+Definition adjust_step (n : path) (s : state) (km : string * Z) : state :=
   let '(raw, m) := km in
-  if m =? 0 then sd
+  if m =? 0 then s
   else
     let dt := to_dt raw in
     let cur := maxVolumeCount (uget (i_usage (info s n)) dt) in
-    if cur =? m then sd
+    if cur =? m then s
     else
       let s1 := get_or_create_disk s n dt in
-      let delta' := uset_max delta dt (m - cur) in
-      (up_adjust s1 (n ++ [dt]) delta', delta').
+      let delta := uset_max [] dt (m - cur) in
+      up_adjust s1 (n ++ [dt]) delta.
 
-Lemma adjust_max_fold : forall st n maxs, adjust_max st n maxs = fst (fold_left (adjust_step n) maxs (st, [])).
+Lemma adjust_max_fold : forall st n maxs, adjust_max st n maxs = fold_left (adjust_step n) maxs st.
 Proof. reflexivity. Qed.
-
-Lemma adjust_fold_ineffective : forall n l s d, (forall km, In km l -> max_effective s n km = false) ->
-  fold_left (adjust_step n) l (s, d) = (s, d).
-Proof.
-  induction l as [|[raw m] l IH]; intros s d H; simpl; auto.
-  assert (E : max_effective s n (raw, m) = false) by (apply H; left; reflexivity).
-  unfold max_effective in E. simpl in E.
-  destruct (m =? 0) eqn:E0.
-  - apply IH. intros. apply H. right. auto.
-  - simpl in E. apply negb_false_iff in E. rewrite E. apply IH. intros. apply H. right. auto.
-Qed.
 
 (* the value the data node's max count has after the heartbeat, per disk type *)
 Definition max_spec (l : list (string * Z)) (orig : string -> Z) (t : string) : Z :=
@@ -1464,21 +1474,9 @@ Proof.
     apply (find_key_none l t F km'); auto. eapply Permutation_in; [apply Permutation_sym; exact Hp|exact Hin].
 Qed.
 
-Lemma filter_single_split : forall A (p : A -> bool) l x, filter p l = [x] ->
-  exists l1 l2, l = l1 ++ x :: l2 /\ p x = true /\ (forall y, In y l1 -> p y = false) /\ (forall y, In y l2 -> p y = false).
-Proof.
-  induction l as [|y l IH]; intros x H; simpl in H; [discriminate|].
-  destruct (p y) eqn:E.
-  - inversion H; subst. exists [], l. repeat split; auto; try (intros ? []).
-    intros z Hz. destruct (p z) eqn:Ez; auto.
-    assert (In z (filter p l)) by (apply filter_In; auto). rewrite H2 in H0. destruct H0.
-  - destruct (IH _ H) as [l1 [l2 [H1 [H2 [H3 H4]]]]]. exists (y :: l1), l2. repeat split; auto.
-    + simpl. rewrite H1. reflexivity.
-    + intros z [Hz|Hz]; [subst; auto|auto].
-Qed.
-
-Theorem adjust_max_effect : forall st r n l, Inv st r -> In n (keys st) -> length n = 3%nat ->
-  NoDup (map dtf l) -> (length (filter (max_effective st n) l) <= 1)%nat ->
+(* any number of disk types may change in one heartbeat *)
+Theorem adjust_max_effect : forall n l st, Core st -> In n (keys st) -> length n = 3%nat ->
+  NoDup (map dtf l) ->
   let st' := adjust_max st n l in
   Core st' /\
   (forall k, In k (keys st) -> In k (keys st')) /\
@@ -1486,62 +1484,57 @@ Theorem adjust_max_effect : forall st r n l, Inv st r -> In n (keys st) -> lengt
   (forall m t, In m (keys st) -> length m = 3%nat -> m <> n -> maxVolumeCount (U st' m t) = maxVolumeCount (U st m t)) /\
   (forall t, maxVolumeCount (U st' n t) = max_spec l (fun t => maxVolumeCount (U st n t)) t).
 Proof.
-  intros st r n l Hi Hn Hl Hnd Hle st'. unfold st'. rewrite adjust_max_fold.
-  destruct (filter (max_effective st n) l) as [|km0 [|km1 rest]] eqn:F; [| |simpl in Hle; lia].
-  - (* nothing changes *)
-    rewrite adjust_fold_ineffective.
-    2:{ intros km Hkm. destruct (max_effective st n km) eqn:E; auto.
-        assert (In km (filter (max_effective st n) l)) by (apply filter_In; auto). rewrite F in H. destruct H. }
-    simpl. split; [eapply Inv_core; eauto|]. split; auto. split; auto. split; auto.
-    intro t. unfold max_spec. destruct (find (fun km => String.eqb (dtf km) t) l) as [km|] eqn:Fk; auto.
-    apply find_key_some in Fk. destruct Fk as [Hin E].
-    assert (Hne : max_effective st n km = false).
-    { destruct (max_effective st n km) eqn:E1; auto.
-      assert (In km (filter (max_effective st n) l)) by (apply filter_In; auto). rewrite F in H. destruct H. }
-    unfold max_effective in Hne. destruct (snd km =? 0) eqn:E0; auto. simpl in Hne.
-    apply negb_false_iff in Hne. apply Z.eqb_eq in Hne. unfold dtf in E. rewrite E in Hne. exact Hne.
-  - (* exactly one disk type changes *)
-    destruct (filter_single_split _ _ _ _ F) as [l1 [l2 [Hs [He [H1 H2]]]]].
-    destruct km0 as [raw m]. subst l.
-    unfold max_effective in He. simpl in He. apply andb_prop in He. destruct He as [He0 He1].
-    apply negb_true_iff in He0, He1.
-    destruct (max_adjust_step st r n (to_dt raw) (m - maxVolumeCount (uget (i_usage (info st n)) (to_dt raw))) Hi Hn Hl)
-      as [Hc [Hk1 [Hk2 Hm]]].
+  intros n l. induction l as [|[raw m] l IH]; intros st Hc Hn Hl Hnd st'; unfold st'; rewrite adjust_max_fold.
+  - simpl. split; [exact Hc|]. split; [auto|]. split; [auto|]. split; [auto|]. intro t. reflexivity.
+  - cbn [fold_left]. rewrite <- adjust_max_fold.
+    inversion Hnd as [|x xs Hx Hnd']; subst.
+    assert (Hskip : adjust_step n st (raw, m) = st ->
+              (m =? 0) = true \/ maxVolumeCount (U st n (to_dt raw)) = m ->
+              let st' := adjust_max st n l in
+              Core st' /\ (forall k, In k (keys st) -> In k (keys st')) /\
+              (forall p, In p (keys st') -> length p = 3%nat -> In p (keys st)) /\
+              (forall m0 t, In m0 (keys st) -> length m0 = 3%nat -> m0 <> n -> maxVolumeCount (U st' m0 t) = maxVolumeCount (U st m0 t)) /\
+              (forall t, maxVolumeCount (U st' n t) = max_spec ((raw, m) :: l) (fun t => maxVolumeCount (U st n t)) t)).
+    { intros _ Hwhy. destruct (IH st Hc Hn Hl Hnd') as [H1 [H2 [H3 [H4 H5]]]].
+      split; [exact H1|]. split; [exact H2|]. split; [exact H3|]. split; [exact H4|].
+      intro t. rewrite H5. unfold max_spec. cbn [find].
+      destruct (String.eqb (dtf (raw, m)) t) eqn:E; [|reflexivity].
+      apply String.eqb_eq in E. subst t.
+      destruct (find (fun km => String.eqb (dtf km) (dtf (raw, m))) l) as [km'|] eqn:F.
+      - apply find_key_some in F. destruct F as [Hin E]. exfalso. apply Hx. rewrite <- E. apply in_map. exact Hin.
+      - cbn [snd]. destruct Hwhy as [Hw|Hw]; [rewrite Hw; reflexivity|].
+        destruct (m =? 0); [reflexivity|]. unfold dtf. simpl. exact Hw. }
+    destruct (m =? 0) eqn:E0.
+    { assert (Es : adjust_step n st (raw, m) = st) by (unfold adjust_step; rewrite E0; reflexivity).
+      rewrite Es. apply Hskip; [exact Es|left; reflexivity]. }
+    destruct (maxVolumeCount (uget (i_usage (info st n)) (to_dt raw)) =? m) eqn:E1.
+    { assert (Es : adjust_step n st (raw, m) = st) by (unfold adjust_step; rewrite E0, E1; reflexivity).
+      rewrite Es. apply Hskip; [exact Es|right; apply Z.eqb_eq; exact E1]. }
+    clear Hskip.
+    assert (Es : adjust_step n st (raw, m) =
+                 up_adjust (get_or_create_disk st n (to_dt raw)) (n ++ [to_dt raw])
+                   [(to_dt raw, mkCounts 0 0 0 0 (m - maxVolumeCount (uget (i_usage (info st n)) (to_dt raw))))])
+      by (unfold adjust_step; rewrite E0, E1; reflexivity).
+    rewrite Es. clear Es.
+    destruct (max_adjust_step st n (to_dt raw) (m - maxVolumeCount (uget (i_usage (info st n)) (to_dt raw))) Hc Hn Hl)
+      as [Hc1 [Hk1 [Hk2 Hm1]]].
     set (s1 := up_adjust (get_or_create_disk st n (to_dt raw)) (n ++ [to_dt raw])
                  [(to_dt raw, mkCounts 0 0 0 0 (m - maxVolumeCount (uget (i_usage (info st n)) (to_dt raw))))]) in *.
-    assert (Hnd2 : NoDup (map dtf (l1 ++ (raw, m) :: l2))) by exact Hnd.
-    rewrite map_app in Hnd2. simpl in Hnd2.
-    assert (Hother : forall km, In km l1 \/ In km l2 -> dtf km <> to_dt raw).
-    { intros km Hkm E. apply NoDup_remove_2 in Hnd2. apply Hnd2. apply in_or_app.
-      destruct Hkm as [Hkm|Hkm]; [left|right]; apply in_map_iff; exists km; split; auto. }
-    assert (Est : exists d1, fold_left (adjust_step n) (l1 ++ (raw, m) :: l2) (st, []) = (s1, d1)).
-    { eexists. rewrite fold_left_app. rewrite adjust_fold_ineffective by exact H1.
-      cbn [fold_left]. unfold adjust_step at 2. rewrite He0, He1.
-      apply adjust_fold_ineffective.
-      intros km Hkm. specialize (H2 km Hkm). unfold max_effective in *.
-      fold (U s1 n (to_dt (fst km))). fold (U st n (to_dt (fst km))) in H2.
-      rewrite (Hm n (to_dt (fst km)) Hn Hl). rewrite path_eqb_refl. cbn [andb].
-      destruct (String.eqb (to_dt raw) (to_dt (fst km))) eqn:E; [|rewrite Z.add_0_r; exact H2].
-      apply String.eqb_eq in E. exfalso. apply (Hother km (or_intror Hkm)). unfold dtf. congruence. }
-    destruct Est as [d1 Est]. rewrite Est. cbn [fst].
-    set (dt := to_dt raw) in *. set (cur := maxVolumeCount (uget (i_usage (info st n)) dt)) in *.
-    split; [exact Hc|]. split; [exact Hk1|]. split; [exact Hk2|]. split.
-    + intros m' t Hm' Hlm' Hne. rewrite (Hm m' t Hm' Hlm'). apply path_eqb_neq in Hne. rewrite Hne. simpl. lia.
-    + intro t. rewrite (Hm n t Hn Hl), path_eqb_refl. simpl. unfold max_spec.
-      destruct (String.eqb dt t) eqn:Et.
-      * apply String.eqb_eq in Et. subst t.
-        change dt with (dtf (raw, m)) at 2.
-        rewrite (find_key_unique (l1 ++ (raw, m) :: l2) (raw, m) Hnd) by (apply in_or_app; right; left; reflexivity).
-        simpl. rewrite He0. unfold U. fold cur. lia.
-      * rewrite Z.add_0_r.
-        destruct (find (fun km => String.eqb (dtf km) t) (l1 ++ (raw, m) :: l2)) as [km|] eqn:Fk; auto.
-        apply find_key_some in Fk. destruct Fk as [Hin E].
-        apply in_app_or in Hin. destruct Hin as [Hin|[Hin|Hin]].
-        -- specialize (H1 km Hin). unfold max_effective in H1. destruct (snd km =? 0); auto. simpl in H1.
-           apply negb_false_iff in H1. apply Z.eqb_eq in H1. unfold dtf in E. rewrite E in H1. exact H1.
-        -- subst km. unfold dtf in E. simpl in E. fold dt in E. subst t. rewrite String.eqb_refl in Et. discriminate.
-        -- specialize (H2 km Hin). unfold max_effective in H2. destruct (snd km =? 0); auto. simpl in H2.
-           apply negb_false_iff in H2. apply Z.eqb_eq in H2. unfold dtf in E. rewrite E in H2. exact H2.
+    destruct (IH s1 Hc1 (Hk1 n Hn) Hl Hnd') as [H1 [H2 [H3 [H4 H5]]]].
+    split; [exact H1|]. split; [intros k Hk; apply H2; apply Hk1; exact Hk|].
+    split; [intros p Hp Hlp; apply Hk2; auto|]. split.
+    + intros m0 t Hm0 Hlm0 Hne. rewrite H4; auto. rewrite (Hm1 m0 t Hm0 Hlm0).
+      apply path_eqb_neq in Hne. rewrite Hne. simpl. lia.
+    + intro t. rewrite H5. unfold max_spec. cbn [find].
+      destruct (String.eqb (dtf (raw, m)) t) eqn:E.
+      * apply String.eqb_eq in E. subst t.
+        destruct (find (fun km => String.eqb (dtf km) (dtf (raw, m))) l) as [km'|] eqn:F.
+        -- apply find_key_some in F. destruct F as [Hin E]. exfalso. apply Hx. rewrite <- E. apply in_map. exact Hin.
+        -- cbn [snd]. rewrite E0. rewrite (Hm1 n _ Hn Hl), path_eqb_refl. unfold dtf. simpl.
+           rewrite String.eqb_refl. simpl. unfold U. lia.
+      * assert (Ho : maxVolumeCount (U s1 n t) = maxVolumeCount (U st n t)).
+        { rewrite (Hm1 n t Hn Hl), path_eqb_refl. unfold dtf in E. simpl in E. rewrite E. simpl. lia. }
+        destruct (find (fun km => String.eqb (dtf km) t) l) as [km'|]; [destruct (snd km' =? 0)|]; auto.
 Qed.
 
 (* ---- the reference side of AdjustMax ---- *)
@@ -1610,20 +1603,17 @@ Lemma Core_ref_inv : forall st r, Core st -> RefInv st r -> Inv st r.
 Proof. intros st r [H1 H2 H3 H4 H5] H6. constructor; assumption. Qed.
 
 Theorem adjust_max_inv : forall st r n maxs order, Inv st r -> In n (keys st) -> length n = 3%nat ->
-  wf_op (AdjustMax n maxs) = true -> trig_max_shared st n maxs = false ->
+  wf_op (AdjustMax n maxs) = true ->
   Inv (adjust_max st n (permute order maxs)) (ref_step r (AdjustMax n maxs)) /\
   (forall k, In k (keys st) -> In k (keys (adjust_max st n (permute order maxs)))).
 Proof.
-  intros st r n maxs order Hi Hn Hl Hwf Ht.
+  intros st r n maxs order Hi Hn Hl Hwf.
   simpl in Hwf. apply (nodupb_sound _ String.eqb String.eqb_eq) in Hwf.
   change (map (fun km : string * Z => to_dt (fst km)) maxs) with (map dtf maxs) in Hwf.
   pose proof (permute_perm _ order maxs) as Hp.
   assert (Hnd : NoDup (map dtf (permute order maxs))).
   { eapply Permutation_NoDup; [apply Permutation_map; apply Permutation_sym; exact Hp|exact Hwf]. }
-  assert (Hle : (length (filter (max_effective st n) (permute order maxs)) <= 1)%nat).
-  { rewrite (Permutation_length (Permutation_filter _ (max_effective st n) _ _ Hp)).
-    unfold trig_max_shared in Ht. apply Nat.leb_gt in Ht. lia. }
-  destruct (adjust_max_effect st r n (permute order maxs) Hi Hn Hl Hnd Hle) as [Hc [Hk1 [Hk2 [Hm1 Hm2]]]].
+  destruct (adjust_max_effect n (permute order maxs) st (Inv_core _ _ Hi) Hn Hl Hnd) as [Hc [Hk1 [Hk2 [Hm1 Hm2]]]].
   split; [|exact Hk1].
   apply Core_ref_inv; [exact Hc|].
   destruct (i_ref _ _ Hi) as [R1 R2 R3].
@@ -2078,26 +2068,6 @@ Lemma popcount_ldiff_diag : forall b, popcount (N.ldiff b b) = 0.
 Proof. intro b. rewrite N.ldiff_diag. reflexivity. Qed.
 
 (* ---- states related by EC-only counter changes under the data node n ---- *)
-Lemma info_goc : forall st n x k, info (get_or_create_disk st n x) k = info st k.
-Proof.
-  intros st n x k. unfold get_or_create_disk. destruct (present st (n ++ [x])) eqn:P; [reflexivity|].
-  rewrite info_app_new. destruct (present st k) eqn:Pk; [reflexivity|].
-  apply present_false in Pk. rewrite (info_absent st k Pk). destruct (path_eqb (n ++ [x]) k); reflexivity.
-Qed.
-
-Lemma Struct_goc : forall st n x, Struct st -> In n (keys st) -> Struct (get_or_create_disk st n x).
-Proof.
-  intros st n x Hs Hn. unfold get_or_create_disk. destruct (present st (n ++ [x])) eqn:P; [exact Hs|].
-  apply present_false in P. apply Struct_add; auto. apply payload_ok_empty.
-Qed.
-
-Lemma keys_goc : forall st n x k, In k (keys (get_or_create_disk st n x)) <-> In k (keys st) \/ k = n ++ [x].
-Proof.
-  intros st n x k. unfold get_or_create_disk. destruct (present st (n ++ [x])) eqn:P.
-  - apply present_in in P. split; [auto|intros [H|H]; subst; auto].
-  - rewrite keys_app, in_app_iff. simpl. intuition.
-Qed.
-
 Section FullEc.
   Variable n : path.
   Hypothesis Hln : length n = 3%nat.
@@ -2196,10 +2166,12 @@ Definition chg (actual : list ecinfo) (e : ecinfo) : bool :=
   match find_ec_last (e_id e) actual with
   | None => true | Some _ => (0 <? an_of actual e) || (0 <? dn_of actual e) end.
 
-Definition loop1_step (n : path) (actual : list ecinfo) (acc : state * Z * Z * bool) (e : ecinfo)
-  : state * Z * Z * bool :=
-  let '(s, newCount, delCount, changed) := acc in
+Definition loop1_step (n : path) (actual : list ecinfo) (acc : state * bool) (e : ecinfo)
+  : state * bool :=
+  let '(s, changed) := acc in
   let s1 := get_or_create_disk s n (e_disk e) in
+  let newCount := 0 in
+  let delCount := 0 in
   let '(newCount', delCount', changed') :=
     match find_ec_last (e_id e) actual with
     | None => (newCount, delCount + popcount (e_bits e), true)
@@ -2210,8 +2182,7 @@ Definition loop1_step (n : path) (actual : list ecinfo) (acc : state * Z * Z * b
          (if 0 <? dn then delCount + dn else delCount),
          changed || (0 <? an) || (0 <? dn))
     end in
-  (up_adjust s1 (n ++ [e_disk e]) (ec_delta (e_disk e) (newCount' - delCount')),
-   newCount', delCount', changed').
+  (up_adjust s1 (n ++ [e_disk e]) (ec_delta (e_disk e) (newCount' - delCount')), changed').
 
 Definition loop2_step (n : path) (registered : list ecinfo) (acc : state * bool) (a : ecinfo) : state * bool :=
   let '(s, changed) := acc in
@@ -2223,47 +2194,37 @@ Definition loop2_step (n : path) (registered : list ecinfo) (acc : state * bool)
 Lemma update_ec_unfold : forall order st n actual,
   update_ec_shards order st n actual =
   let existing := permute order (node_ecs st n) in
-  let '(st1, _, _, changed1) := fold_left (loop1_step n actual) existing (st, 0, 0, false) in
+  let '(st1, changed1) := fold_left (loop1_step n actual) existing (st, false) in
   let '(st2, changed2) := fold_left (loop2_step n (node_ecs st n)) actual (st1, changed1) in
   if changed2 then do_update_ec_shards st2 n actual else st2.
 Proof. reflexivity. Qed.
 
-Lemma loop1_step_eq : forall n actual s nc dc ch e,
-  loop1_step n actual (s, nc, dc, ch) e =
-  (ec_adj n s (e_disk e) ((nc + an_of actual e) - (dc + dn_of actual e)),
-   nc + an_of actual e, dc + dn_of actual e, ch || chg actual e).
+(* after the repair every registered EC volume contributes its own delta *)
+Lemma loop1_step_eq : forall n actual s ch e,
+  loop1_step n actual (s, ch) e = (ec_adj n s (e_disk e) (own actual e), ch || chg actual e).
 Proof.
-  intros n actual s nc dc ch e. unfold loop1_step, chg, an_of, dn_of, ec_adj.
+  intros n actual s ch e. unfold loop1_step, own, chg, an_of, dn_of, ec_adj.
   destruct (find_ec_last (e_id e) actual) as [a|].
   - pose proof (popcount_nonneg (N.ldiff (e_bits a) (e_bits e))) as H1.
     pose proof (popcount_nonneg (N.ldiff (e_bits e) (e_bits a))) as H2.
-    assert (E1 : (if 0 <? popcount (N.ldiff (e_bits a) (e_bits e)) then nc + popcount (N.ldiff (e_bits a) (e_bits e)) else nc)
-                 = nc + popcount (N.ldiff (e_bits a) (e_bits e))).
-    { destruct (0 <? popcount (N.ldiff (e_bits a) (e_bits e))) eqn:E; auto. apply Z.ltb_ge in E. lia. }
-    assert (E2 : (if 0 <? popcount (N.ldiff (e_bits e) (e_bits a)) then dc + popcount (N.ldiff (e_bits e) (e_bits a)) else dc)
-                 = dc + popcount (N.ldiff (e_bits e) (e_bits a))).
-    { destruct (0 <? popcount (N.ldiff (e_bits e) (e_bits a))) eqn:E; auto. apply Z.ltb_ge in E. lia. }
-    rewrite E1, E2. rewrite orb_assoc. reflexivity.
-  - rewrite Z.add_0_r, orb_true_r. reflexivity.
+    assert (E1 : (if 0 <? popcount (N.ldiff (e_bits a) (e_bits e)) then 0 + popcount (N.ldiff (e_bits a) (e_bits e)) else 0)
+                 = popcount (N.ldiff (e_bits a) (e_bits e))).
+    { destruct (0 <? popcount (N.ldiff (e_bits a) (e_bits e))) eqn:E; [lia|]. apply Z.ltb_ge in E. lia. }
+    assert (E2 : (if 0 <? popcount (N.ldiff (e_bits e) (e_bits a)) then 0 + popcount (N.ldiff (e_bits e) (e_bits a)) else 0)
+                 = popcount (N.ldiff (e_bits e) (e_bits a))).
+    { destruct (0 <? popcount (N.ldiff (e_bits e) (e_bits a))) eqn:E; [lia|]. apply Z.ltb_ge in E. lia. }
+    cbv zeta. rewrite E1, E2. rewrite orb_assoc. reflexivity.
+  - cbv zeta. rewrite orb_true_r. reflexivity.
 Qed.
 
-Lemma loop1_fold : forall n actual l s nc dc ch, nc - dc = 0 ->
-  (forall e, In e (removelast l) -> own actual e = 0) ->
-  exists nc' dc', fold_left (loop1_step n actual) l (s, nc, dc, ch) =
-    (adj_fold n (map (fun e => (e_disk e, own actual e)) l) s, nc', dc', ch || existsb (chg actual) l).
+Lemma loop1_fold : forall n actual l s ch,
+  fold_left (loop1_step n actual) l (s, ch) =
+  (adj_fold n (map (fun e => (e_disk e, own actual e)) l) s, ch || existsb (chg actual) l).
 Proof.
-  intros n actual. induction l as [|e l IH]; intros s nc dc ch H0 Hz.
-  - exists nc, dc. simpl. rewrite orb_false_r. reflexivity.
-  - cbn [fold_left]. rewrite loop1_step_eq.
-    replace (nc + an_of actual e - (dc + dn_of actual e)) with (own actual e) by (unfold own; lia).
-    destruct l as [|e' l'].
-    + eexists _, _. simpl. rewrite orb_false_r. reflexivity.
-    + assert (Hown : own actual e = 0) by (apply Hz; simpl; left; reflexivity).
-      destruct (IH (ec_adj n s (e_disk e) (own actual e)) (nc + an_of actual e) (dc + dn_of actual e) (ch || chg actual e))
-        as [nc' [dc' E]].
-      * unfold own in Hown. lia.
-      * intros x Hx. apply Hz. simpl. right. exact Hx.
-      * exists nc', dc'. rewrite E. cbn [map adj_fold fold_left fst snd existsb]. rewrite !orb_assoc. reflexivity.
+  intros n actual. induction l as [|e l IH]; intros s ch.
+  - simpl. rewrite orb_false_r. reflexivity.
+  - cbn [fold_left]. rewrite loop1_step_eq, IH.
+    cbn [map adj_fold fold_left fst snd existsb]. rewrite orb_assoc. reflexivity.
 Qed.
 
 Definition new_of (registered actual : list ecinfo) : list ecinfo :=
@@ -2617,10 +2578,10 @@ Lemma sumZ_if_const : forall A (c : bool) (f : A -> Z) l,
 Proof. intros A c f l. destruct c; [reflexivity|]. apply sumZ_zero. auto. Qed.
 
 Theorem update_ec_inv : forall st r n actual order, Inv st r -> In n (keys st) -> length n = 3%nat ->
-  trig_ec_irregular st n actual = false -> trig_ec_cumulative st n actual = false ->
+  trig_ec_irregular st n actual = false ->
   Inv (update_ec_shards order st n actual) r.
 Proof.
-  intros st r n actual order Hi Hn Hln Hirr Hcum.
+  intros st r n actual order Hi Hn Hln Hirr.
   rewrite update_ec_unfold. cbv zeta.
   set (E := node_ecs st n) in *. set (E' := permute order E).
   pose proof (i_struct _ _ Hi) as Hs.
@@ -2635,21 +2596,8 @@ Proof.
     { apply existsb_exists. exists e. split; auto. apply existsb_exists. exists a. split; auto.
       rewrite Hid, N.eqb_refl, Ed. reflexivity. }
     congruence. }
-  (* no cumulative effect *)
-  assert (Hzero : forall e, ec_changed actual e = false -> own actual e = 0).
-  { intros e Hc. unfold ec_changed in Hc. unfold own, an_of, dn_of.
-    destruct (find_ec_last (e_id e) actual) as [a|]; [|discriminate].
-    apply negb_false_iff, N.eqb_eq in Hc. rewrite Hc, popcount_ldiff_diag. lia. }
-  assert (Hz : forall e, In e (removelast E') -> own actual e = 0).
-  { unfold trig_ec_cumulative in Hcum. fold E in Hcum.
-    destruct (Nat.leb 2 (length E)) eqn:L.
-    - simpl in Hcum. intros e He. apply Hzero.
-      apply removelast_in in He. unfold E' in He. apply permute_in in He.
-      destruct (ec_changed actual e) eqn:X; auto.
-      assert (existsb (ec_changed actual) E = true) by (apply existsb_exists; exists e; auto). congruence.
-    - apply Nat.leb_gt in L. assert (L' : (length E' < 2)%nat) by (unfold E'; rewrite permute_length; exact L).
-      destruct E' as [|a [|b l]]; simpl in *; try lia; intros e []. }
-  destruct (loop1_fold n actual E' st 0 0 false eq_refl Hz) as [nc [dc E1]]. rewrite E1. rewrite loop2_fold.
+  rewrite loop1_fold. rewrite loop2_fold.
+
   fold E.
   set (D1 := map (fun e => (e_disk e, own actual e)) E').
   set (D2 := map (fun a => (e_disk a, popcount (e_bits a))) (new_of E actual)).
@@ -2786,10 +2734,9 @@ Proof.
   destruct o as [dc rack node maxs|n maxs|n vs|n news dels|n shards|n news dels|n].
   - apply join_inv; auto.
   - (* AdjustMax *)
-    unfold step, trigger in *. cbn [op_node] in *.
-    destruct (present st n && Nat.eqb (length n) 3) eqn:P; cbn [negb] in *.
+    unfold step. cbn [op_node].
+    destruct (present st n && Nat.eqb (length n) 3) eqn:P; cbn [negb].
     + apply andb_prop in P. destruct P as [P L]. apply present_in in P. apply Nat.eqb_eq in L.
-      destruct (trig_max_shared st n maxs) eqn:T; [discriminate|].
       apply adjust_max_inv; auto.
     + cbn [ref_step]. rewrite ref_map_absent; auto.
       intro X. apply (r_keys _ _ (i_ref _ _ Hi)) in X. destruct X as [X1 X2].
@@ -2800,18 +2747,15 @@ Proof.
     apply andb_prop in P. destruct P as [P L]. apply present_in in P. apply Nat.eqb_eq in L.
     apply update_volumes_inv; auto.
   - (* IncVol *)
-    unfold step, trigger in *. cbn [op_node ref_step] in *.
-    destruct (present st n && Nat.eqb (length n) 3) eqn:P; cbn [negb] in *; auto.
+    unfold step. cbn [op_node ref_step].
+    destruct (present st n && Nat.eqb (length n) 3) eqn:P; cbn [negb]; auto.
     apply andb_prop in P. destruct P as [P L]. apply present_in in P. apply Nat.eqb_eq in L.
-    destruct (trig_stale_delete st n dels) eqn:T0; [discriminate|].
-    destruct (trig_remote_delete st n dels) eqn:T3; [discriminate|].
     apply delta_update_volumes_inv; auto.
   - (* FullEc *)
     unfold step, trigger in *. cbn [op_node ref_step] in *.
     destruct (present st n && Nat.eqb (length n) 3) eqn:P; cbn [negb] in *; auto.
     apply andb_prop in P. destruct P as [P L]. apply present_in in P. apply Nat.eqb_eq in L.
     destruct (trig_ec_irregular st n shards) eqn:T4; [discriminate|].
-    destruct (trig_ec_cumulative st n shards) eqn:T1; [discriminate|].
     apply update_ec_inv; auto.
   - (* IncEc *)
     unfold step. cbn [op_node ref_step].
